@@ -656,8 +656,8 @@ fn find_modal_class<L: Label>(class_freq: &HashMap<L, f32>) -> L {
         .iter()
         .fold(None, |acc, (idx, freq)| match acc {
             None => Some((idx, freq)),
-            Some((_best_idx, best_freq)) => {
-                if best_freq > freq {
+            Some((best_idx, best_freq)) => {
+                if best_freq > freq || (best_freq == freq && best_idx < idx) {
                     acc
                 } else {
                     Some((idx, freq))
